@@ -98,6 +98,14 @@ func TestVerifWireDNSReg(t *testing.T) {
 				}
 				return "error", "success=false"
 			})
+			if res.Outcome != "hang" && res.Outcome != "panic" && !regprocessor.VerifSelectorLockFree(w.p) {
+				res = vwResult{Outcome: "hang", Detail: "the call returned (" + res.Outcome + ") but the registrar still holds its phantom-selector lock: the next reload and every registration after it block",
+					Site: "regprocessor.selectorMutex"}
+				w.p, _, _ = regprocessor.VerifWireProcessor(regprocessor.VerifWireCfg{Auth: true, Ovr: "rand"}, w.toml, w.mt, vSeed())
+				for _, sv := range srv {
+					sv.processor = w.p
+				}
+			}
 			r.record(row, variant, res)
 		}
 		deliver("", raw)
